@@ -88,6 +88,8 @@ class Emitter:
             if signed:
                 return self.tmp(x, 'uint64_t', '((uint64_t)(int64_t)%s) & 0x%xULL' % (N(v), mask))
             return self.tmp(x, 'uint64_t', '((uint64_t)%s) & 0x%xULL' % (N(v), mask))
+        if op == 'f_lround':
+            return self.tmp(x, 'uint64_t', '(uint64_t)llround(%s)' % N(a[0]))
         if op == 'f_fromint':
             return self.tmp(x, 'double', '(double)%s' % N(a[0]))
         # integers: every value is kept in a uint64_t masked to its width
